@@ -40,14 +40,59 @@ def pin_polyclip(check):
     except Exception as e:  # unreadable go.mod etc.: the tie cannot be established
         check.broken.append("cannot establish the polyclip pin: %r" % e)
 
+TIE_MODULE = T + "Ties"
+TIE_THEOREMS = ["C14_tie_toPolyClip", "C14_tie_polyClipToPolygon", "C14_tie_clipperOp", "C14_tie_Polygons", "C14_tie_op",
+                "C14_tie_LineString_Clip", "C14_tie_MultiLineString_Clip", "C14_src_clip"]
+
+
+def regen_glue(check):
+    """T1: regenerate lean/GeomV/C14/Gen.lean from linestring.go / multilinestring.go / polygon.go (+ the two other
+    Polygons() methods) of the tree under test (written only when it changed).  If a function left the translatable
+    subset, or the regenerated definitions no longer denote the model's functions (Ties.lean does not build), the tie
+    is reported broken and the Ties module is left out so that the other obligations are still audited."""
+    import vcheck
+    cfg = check.cfg
+
+    def drop(why):
+        cfg["lean_modules"] = [m for m in cfg["lean_modules"] if m != TIE_MODULE]
+        check.broken.append(why)
+    ok, gobin, out = vcheck.go_build("c14", check.rundir)
+    if not ok:
+        return  # reported by the harness build of the main flow
+    p = subprocess.run([gobin, "extract", "--repo", vcheck.REPO], stdout=subprocess.PIPE, stderr=subprocess.PIPE, text=True)
+    if p.returncode not in (0, 3) or not p.stdout.startswith("import"):
+        drop("T1 tie: extractor failed: " + p.stderr.strip()[-300:])
+        return
+    gen = os.path.join(vcheck.LEAN, "GeomV", "C14", "Gen.lean")
+    old = open(gen).read() if os.path.exists(gen) else ""
+    if old != p.stdout:
+        with open(gen + ".tmp%d" % os.getpid(), "w") as f:
+            f.write(p.stdout)
+        os.replace(gen + ".tmp%d" % os.getpid(), gen)
+    if p.returncode == 3:
+        drop("T1 tie: " + p.stderr.strip()[-600:])
+        return
+    with vcheck.Lock("lake"):
+        b = subprocess.run(["lake", "build", TIE_MODULE], cwd=vcheck.LEAN, stdout=subprocess.PIPE, stderr=subprocess.STDOUT, text=True)
+    if b.returncode != 0:
+        errs = re.findall(r"error: .*", b.stdout)[:3]
+        drop("T1 tie broken: the Clip glue regenerated from the Go source no longer denotes the model (GeomV.C14.Ties does not build): "
+             + " | ".join(errs))
+
+
+def pregen(check):
+    pin_polyclip(check)
+    regen_glue(check)
+
+
 CFG = {
     "id": "C14",
-    "lean_modules": ["GeomV.C14.Proofs", "GeomV.C14.Complete", "GeomV.C14.Length"],
+    "lean_modules": ["GeomV.C14.Proofs", "GeomV.C14.Complete", "GeomV.C14.Length", TIE_MODULE],
     "lean_dirs": ["C14", "C01"],
     "exe": "geomv_c14",
     "go_cmd": "c14",
     "stages": ["go:gen", "go:impl", "lean:judge"],
-    "theorems": [T + n for n in ["C14_glue", "C14_trivial", "C14_exact", "C14_vertices", "C14_empty_iff", "oracle_midpoints_inside", "oracle_endpoints_on_L", "oracle_subintervals_cover", "oracle_complete", "oracle_complete_col", "boundary_param_mem", "oracle_intervals_disjoint", "collinear_free", "C14_length", "C14_together_defect"]],
+    "theorems": [T + n for n in ["C14_glue", "C14_trivial", "C14_exact", "C14_vertices", "C14_empty_iff", "oracle_midpoints_inside", "oracle_endpoints_on_L", "oracle_subintervals_cover", "oracle_complete", "oracle_complete_col", "boundary_param_mem", "oracle_intervals_disjoint", "collinear_free", "C14_length", "C14_together_defect"] + TIE_THEOREMS],
     "level": "proof",
     "trusted_base": [
         "Lean 4.33.0 kernel; axioms of every theorem printed by #print axioms must be within {propext, Classical.choice, Quot.sound}",
@@ -61,7 +106,7 @@ CFG = {
             "against polygons with holes / multi-polygons / boxes at half-integer offsets (no line vertex on the boundary, no polygon vertex on the line: rejected by exact int64 tests); "
             "40% of the cases at coordinate scales 2^-20/2^-24/2^-30/2^+20 (dyadic: exact), multi-call histories on one line with operands overwritten in place, operands over one flat backing array and compared with a snapshot after each call, size-threshold cases (vertex/ring/member counts beyond 64/128/1024; lines of 1024..3000 vertices); distinct = distinct input line; non-trivial = verdict class not '-outside-quantifier' (degenerate corpus receivers, compared with the model only)",
     "trivial_class": r"outside-quantifier$",
-    "pregen": pin_polyclip,
+    "pregen": pregen,
     "timeout": {"quick": 600, "thorough": 3000},
     "explanation": "partial: the glue and the trivial cases are proved for all inputs and the oracle is proved sound; the CLIPLINE sweep is exercised (compared with the oracle per case), not proved",
 }
